@@ -486,6 +486,21 @@ def r14_leaf(text, name, free, leaves, prefix="vx_leaf_"):
     return text, 1
 
 
+def r15_opaque(text, start_pat, macro_pat, replacement):
+    """R15: the statements from the match of start_pat through the end of the macro block opened by macro_pat
+    (e.g. tokio::select! { .. }) are replaced by a call to an opaque effect."""
+    m = mask(text)
+    ms = re.search(start_pat, m, re.S)
+    if not ms:
+        raise Undecided("R15: start anchor %r not found" % start_pat)
+    mm = re.compile(macro_pat, re.S).search(m, ms.end())
+    if not mm:
+        raise Undecided("R15: macro anchor %r not found" % macro_pat)
+    ob = m.index("{", mm.end() - 1)
+    cb = match_close(m, ob)
+    return text[:ms.start()] + replacement + text[cb + 1:], 1
+
+
 def apply_rules(text, rules, log, fn):
     """rules: list of tuples (kind, *args)."""
     for r in rules:
@@ -506,6 +521,8 @@ def apply_rules(text, rules, log, fn):
             text, k = r10_map_err(text, *r[1:])
         elif kind == "R7":
             text, k = r7_atomics(text, *r[1:])
+        elif kind == "R15":
+            text, k = r15_opaque(text, *r[1:])
         elif kind == "R10r":
             text, k = r10_result_map_chain(text, *r[1:])
         elif kind == "R10p":
